@@ -32,6 +32,8 @@ double weightImportance(unsigned i)
 __CPROVER_requires(i < samplerCount_) __CPROVER_assigns() __CPROVER_ensures(i == G ==> __CPROVER_return_value == W_G);
 double FMULW(double a, double b)   /* distance * weight: an arbitrary double (the scaled radius handed to the component sampler) */
 __CPROVER_requires(1) __CPROVER_assigns() __CPROVER_ensures(1);
+bool comp_equalStates(unsigned i)   /* a component's own equality test (arbitrary verdict); used by no function on the unchanged tree's delegation loops except equalStates itself */
+__CPROVER_requires(i < componentCount_) __CPROVER_assigns() __CPROVER_ensures(1);
 void comp_interpolate(unsigned i, double t)
 __CPROVER_requires(i < componentCount_ && interpG < 1000)
 __CPROVER_assigns(interpG, tG)
